@@ -17,11 +17,13 @@ def loop_inv(k, header, kw):
 
 UNIT = Unit(
     name="U-MSUBST",
-    properties=["C07"],
+    properties=["C07", "C03"],
     rules=["attrs", "iter_map_collect"],
     describe="mono::subst_ty (how a generic definition's types are specialised): the result is the type with every bound type parameter "
              "replaced by its binding and everything else copied, at every depth (tuples, applications, arrays, vectors, references, "
-             "function types) — `is_apply`, the same relation U-MUNIFY proves for the substitution a call site derives; terminates",
+             "function types) — `is_apply`, the same relation U-MUNIFY proves for the substitution a call site derives; terminates. Lemma over "
+             "that contract (C03): applying a substitution that binds every parameter of the type to parameter-free types leaves NO type "
+             "parameter in the result (lemma_apply_ground)",
     trusted=["derived Clone on Ty and String is an identical copy (shims ty_clone, string_clone)",
              "IndexMap<String, Ty> is a finite map keyed by the key's text"],
     items=[
